@@ -311,6 +311,9 @@ class Evaluator:
             return
         elif isinstance(s, ast.Raise):
             self.fail(s, "the factory raises on this configuration")
+        elif isinstance(s, ast.Assert):
+            if not self.ex(s.test, env):
+                self.fail(s, "the factory's assertion fails on this configuration")
         else:
             self.fail(s, f"statement kind {type(s).__name__} outside the subset")
 
